@@ -29,9 +29,12 @@ def excluded_lines(filename):
         return got
     ex = set()
     try:
-        with open(filename, "r") as fh:
+        # the sources contain docstrings with invalid escape sequences: under the simulated user's
+        # warnings-as-errors setting the SyntaxWarning would become a SyntaxError *here*, in the tracer
+        with open(filename, "r") as fh, warnings.catch_warnings():
+            warnings.simplefilter("ignore")
             tree = ast.parse(fh.read())
-    except (OSError, SyntaxError):
+    except OSError:
         _EXCLUDED[filename] = ex
         return ex
 
@@ -54,6 +57,14 @@ def excluded_lines(filename):
                 ex.add(ln)
     _EXCLUDED[filename] = ex
     return ex
+
+
+def precompute_excluded(pkgdir):
+    """Parse every source file of the package once, outside any simulated call."""
+    for dirpath, _, files in os.walk(pkgdir):
+        for f in files:
+            if f.endswith(".py"):
+                excluded_lines(os.path.join(dirpath, f))
 
 
 def eligible_sites(pkgdir):
